@@ -1185,7 +1185,13 @@ fn c08_live(property: &str, seed: u64, index: u64) -> Plan {
             3 => (real_from, Payload::MutateLastInput(InputMutation::Bytes(small))),
             4 => (
                 real_from,
-                Payload::MutateLastInput(match c.range(&[14, j], 0, 3) {
+                Payload::MutateLastInput(match c.range(&[14, j], 0, 5) {
+                    4 | 5 => InputMutation::Piggyback {
+                        garbage: c.range(&[22, j], 0, 2) as u8,
+                        ack_delta: *c.pick(&[23, j], &[0, 1, 3, 40, 1_000_000]),
+                        disconnect_player: if c.chance(&[24, j], 500_000) { Some(c.range(&[25, j], 0, np as u64 - 1) as usize) } else { None },
+                        last_frame: c.range(&[26, j], 0, 300) as i32 - 1,
+                    },
                     0 => InputMutation::FlipBit(c.u(&[15, j]) as u32),
                     1 => InputMutation::Truncate(c.u(&[16, j]) as u32),
                     2 => InputMutation::DoubleSize,
